@@ -114,7 +114,7 @@ REG.inline_ok |= {'sqlparse.sql.TokenList.insert_before', 'sqlparse.sql.TokenLis
 # C06: what a layout filter may do to the tree.  `elem` = the element removed / inserted, `obj`/`new` = a field store.
 LAYOUT_SITES = {
     'remove': ['elem.is_whitespace == True'],
-    'insert': ['elem.is_group == False', 'elem.ttype in T.Whitespace'],
+    'insert': ['elem.is_group == False', 'elem.ttype in T.Whitespace', 'FRESH(elem)'],
     'store:value': ['obj.is_whitespace == True', "new == '' or new == ' '"],
     'store:parent': [],            # re-parenting of an inserted whitespace token
     '__closed__': True,            # any other store to a token field (ttype, normalized, flags ...) is a violation
@@ -299,7 +299,9 @@ _site_contract(_AF + '_process_parenthesis', {'self': make_aligned, 'tlist': mak
 COMMENT_SITES = {
     'remove': ['elem.ttype in T.Comment or isinstance(elem, sql.Comment)',
                'elem.ttype not in (T.Comment.Multiline.Hint, T.Comment.Single.Hint)'],
-    'insert': ['elem.is_group == False', 'elem.ttype in T.Whitespace'],
+    # FRESH: a token object must occur once in one tree (I1/I2); a shared token would carry later in-place edits
+    # (strip_whitespace blanks token.value) into every place it was inserted
+    'insert': ['elem.is_group == False', 'elem.ttype in T.Whitespace', 'FRESH(elem)'],
     '__closed__': True,
 }
 _site_contract('sqlparse.filters.others.StripCommentsFilter._process', {'tlist': make_group},
@@ -333,3 +335,113 @@ class _TokenMatchModel:
 
 
 REG['sqlparse.sql.Token.match'] = _TokenMatchModel
+
+
+# --------------------------------------------------------------------------------- SerializerUnicode (C10/C06)
+
+def _lines_result(ex, st, env):
+    """split_unquoted_newlines: a non-empty list of strings (its own contract is the bounded C06 line mapping)"""
+    n = fresh('n_lines', z3.IntSort())
+    st.assume(n >= 1)
+    ln = z3.Function('LINE', z3.IntSort(), z3.StringSort())
+
+    def at(ex_, s, k):
+        return [(s, SStr(ln(ex_.z_int(k))))]
+    return [(st, ex.new_obj(st, 'aseq', {'N': SInt(n), 'AT': at}))]
+
+
+@contract('sqlparse.utils.split_unquoted_newlines')
+class split_unquoted_newlines_c:
+    """call-site form only: returns a non-empty sequence of strings"""
+    callsite = True
+    params = {'stmt': 'opaque'}
+    requires = []
+    ensures = []
+    raises = []
+    make_result = staticmethod(_lines_result)
+    serves = ['C10']
+
+
+def _serializer_ghost(ex, st):
+    from pyvc.models import ends_ws
+    st.ghost['ENDS_WS'] = Func('spec.ENDS_WS', model=lambda e, s_, a, k, s: [(s, SBool(ends_ws(e.z_str(a[0]))))])
+
+
+@contract('sqlparse.filters.others.SerializerUnicode.process')
+class serializer_process:
+    """C10 "no line ends in a blank": every piece that is joined with '\\n' is a line of the statement text right-stripped
+    of ALL whitespace (str.isspace), so it does not end in a whitespace character"""
+    params = {'stmt': 'opaque'}
+    requires = []
+    ghost_init = staticmethod(_serializer_ghost)
+    precise_strip = True
+    genexp_asserts = {'0': ['not ENDS_WS(elem)']}
+    ensures = []
+    raises = []
+    serves = ['C10', 'C06']
+
+
+# --------------------------------------------------------------------------------- StripWhitespaceFilter.process (C07/C10)
+
+def make_possibly_empty_group(ex, st):
+    """a group whose children list may be EMPTY (strip_comments can empty a statement before strip_whitespace runs)"""
+    g = make_group(ex, st, 'stmt')
+    lst = st.objs[g.oid]['tokens']
+    sid = ex.new_seg(st, name='stmt_children')
+    st.lists[lst.lid] = (('seg', sid),)
+    return g
+
+
+class _Sublists:
+    """call-site model of TokenList.get_sublists(): an opaque sequence of group children"""
+
+    @staticmethod
+    def model(ex, self_val, args, kw, st):
+        return [(st, Opaque('sublists', self_val))]
+
+
+class _ProcessRecursion:
+    """the recursive call on a child: returns its argument; works on the child's own children list only (a node's list
+    is not shared with its descendants: I1), which is verified under this same contract"""
+
+    @staticmethod
+    def model(ex, self_val, args, kw, st):
+        return [(st, args[0])]
+
+
+REG['sqlparse.sql.TokenList.get_sublists'] = _Sublists
+REG['sqlparse.filters.others.StripWhitespaceFilter.process'] = _ProcessRecursion
+REG['sqlparse.filters.others.StripWhitespaceFilter._stripws'] = _LayoutCallee
+
+
+class strip_ws_process:
+    """total on every statement, including one without children; returns the statement it was given; the only direct
+    mutation is the removal of a trailing whitespace token at depth 0"""
+    exec_class = HeapExec
+    params = {'self': make_filter('StripWhitespaceFilter'), 'stmt': make_possibly_empty_group, 'depth': 'int'}
+    requires = ['depth >= 0']
+    sites = LAYOUT_SITES
+    ensures = ['result is stmt']
+    raises = []
+    serves = ['C07', 'C10', 'C06']
+
+
+REG.add('sqlparse.filters.others.StripWhitespaceFilter.process', 'body', strip_ws_process)
+
+
+def make_comment_token(ex, st):
+    return ex.new_token(st, {'CLS': ex.W.cls_const[ex.W.sql.Token], 'is_group': False, 'ttype': STy(fresh('c_tt', ex.W.TT)),
+                             'value': fresh_str('c_val'), 'TXT': None, 'is_whitespace': False, 'is_keyword': False,
+                             'is_newline': False, 'normalized': fresh_str('c_norm'), 'parent': Opaque('some-parent')})
+
+
+@contract('sqlparse.filters.others.StripCommentsFilter._process.<locals>._get_insert_token')
+class get_insert_token_c:
+    """what replaces a removed comment: a leaf whitespace token allocated by this call (never a shared object: a token
+    object occurs once in one tree, later in-place edits of it must not reach other places)"""
+    exec_class = HeapExec
+    params = {'token': make_comment_token}
+    requires = []
+    ensures = ['FRESH(result)', 'result.is_group == False', 'result.ttype in T.Whitespace']
+    raises = []
+    serves = ['C08']
